@@ -1,6 +1,8 @@
 package main
 
 import (
+	"go/types"
+
 	"golang.org/x/tools/go/ssa"
 )
 
@@ -14,6 +16,7 @@ var modelNames = map[string]bool{
 	"(time.Time).Before": true, "(time.Time).After": true, "(time.Time).Equal": true, "(time.Time).Compare": true,
 	"(time.Time).IsZero": false,
 	"cmp.Compare":        true,
+	"sync.NewCond":       true,
 	"sort.SliceStable":   false, "sort.Slice": false, "sort.Strings": false,
 }
 
@@ -69,6 +72,19 @@ func (E *Engine) model(fr *Frame, st *State, name string, fn *ssa.Function, args
 			return tb.Ite(tb.Eq(a, b), tb.Int(0), tb.Ite(tb.App("<", SBool, a, b), tb.Int(-1), tb.Int(1))), true
 		}
 		return nil, false
+	case "sync.NewCond":
+		// a fresh Cond whose L is the given Locker
+		ct := fn.Signature.Results().At(0).Type().(*types.Pointer).Elem()
+		r := E.newRef(st, "cond", fr.spec)
+		E.storeObj(st, r, ct, E.zero(ct, nil), nil)
+		si := E.structInfoOf(ct, nil)
+		for i := 0; i < si.st.NumFields(); i++ {
+			if si.st.Field(i).Name() == "L" {
+				k, ks := E.fieldKey(si, i)
+				E.set(st, k, tb.Store(E.get(st, k, ks), r, t(0)))
+			}
+		}
+		return r, true
 	case "(time.Time).Before":
 		return tb.Cmp("<", E.timeKey(t(0)), E.timeKey(t(1))), true
 	case "(time.Time).After":
